@@ -90,8 +90,10 @@ def run(ctx, replay=None):
         e = rows[int(x.split(",")[0]) - 1]
         what = "overlapping Subscribes of one monad: the deliveries are not each evaluation's own value exactly once" if e["part"] == "conc" else \
             "two compositions derived from one prefix: one of them does not evaluate to its own composition" if e["part"] == "branch" else \
+            "a monad built next to one that was configured with ObserveOn/SubscribeOn did not run its effect and OnNext on the subscribing goroutine before Subscribe returned" if e["part"] == "sibling" else \
+            "the first Posts to a fresh Handler came from several goroutines: the effects observed on it did not all run on one goroutine, one at a time" if e["part"] == "fresh" else \
             "a subscription did not keep the handlers it was made under when the monad was reconfigured during its evaluation"
-        ctx.report("%s obOn=%s subOn=%s kind=%s" % (e["part"], e["obOn"], "h2" if e["part"] == "conc" else ("prefix-depth-%d" % e["n"] if e["part"] == "branch" else "h2->" + e["newSub"]), e["kind"]),
+        ctx.report("%s obOn=%s subOn=%s kind=%s" % (e["part"], e["obOn"], "h2" if e["part"] == "conc" else ("prefix-depth-%d" % e["n"] if e["part"] == "branch" else "ctor-%s-val-%d" % (e["newSub"], e["n"]) if e["part"] == "sibling" else "first-posts-%d maxin=%d" % (e["n"], e["maxin"]) if e["part"] == "fresh" else "h2->" + e["newSub"]), e["kind"]),
                    "%s: effects %s, deliveries %s" % (what, json.dumps(e["effects"]), json.dumps(e["delivered"])), {"component": "c11-conc", "run": e})
     ctx.cov["cases_generated_by_tlc"] = ncases
     ctx.cov["distinct_nontrivial"] = ncases - nprogs * 2
